@@ -7,6 +7,6 @@ Emit == (Len(hist) = Depth) => PrintT(<<"B", ToJson(hist)>>)
 Table(L) == LET s == Build(L)
                 d == FlushF(s, EmptyDisk)
                 s2 == RecoverF(d)
-            IN [len |-> L, wits |-> AllWits(s, EmptyDisk), rwits |-> AllWits(s2, d)]
+            IN [len |-> L, kinds |-> s.kinds, data |-> [i \in 1..L |-> T(i - 1, 0) \in d.stored], wits |-> AllWits(s, EmptyDisk), rwits |-> AllWits(s2, d)]
 EmitTable == \A L \in TableFrom..TableTo : PrintT(<<"B", ToJson(Table(L))>>)
 ====
